@@ -516,6 +516,17 @@ def mutants(s, rng):
             c.rfc.aggr_time += rng.choice([1, -1])
         m('rfc-aggr-time', rfc_time)
 
+        def rfc_time_hi(c):
+            # differs from the chains' time only above bit 31
+            c.rfc.aggr_time += rng.choice([1, 2, 3, 0x7fffffff, 0xffffffff]) << 32 if rng.random() < 0.8 else -(1 << 32)
+            if c.rfc.aggr_time < 0:
+                c.rfc.aggr_time += 2 << 32
+        m('rfc-aggr-time-high-bits', rfc_time_hi)
+
+        def rfc_index_hi(c):
+            c.rfc.index[rng.randrange(len(c.rfc.index))] += rng.choice([1, 2, 3, 0x7fffffff]) << 32
+        m('rfc-index-high-bits', rfc_index_hi)
+
         def rfc_index(c):
             if rng.random() < 0.5:
                 c.rfc.index[rng.randrange(len(c.rfc.index))] += 1
